@@ -285,6 +285,7 @@ func runReopen(o *Opts) {
 							c.Viol = append(c.Viol, viol("C09", "bundle re-opened through a symbolic link differs from the one returned by Close: "+d))
 						} else if d := diffList(look0, lookupsOf(b3, via, obs3)); d != "" {
 							c.Viol = append(c.Viol, viol("C09", "bundle re-opened through a symbolic link answers a lookup differently (relative to the directory it was opened in): "+d, tieSig(obs0)...))
+							c.Viol = append(c.Viol, viol("C18", "in a bundle opened through a symbolic link to its directory, forward and reverse lookups no longer stay below that directory / invert each other: "+d, tieSig(obs0)...))
 						}
 					}
 					os.Remove(via)
